@@ -847,6 +847,9 @@ func heapFamily(env *Env) error {
 		rng := rand.New(rand.NewSource(env.Seed))
 		for i := 0; i < env.N; i++ {
 			g := newHeapGen(rng, env.Mode, env.Tier)
+			if env.Mode == "C06" && i < 2 {
+				g.long, g.steps = true, 4
+			}
 			runSteps(env, fmt.Sprintf("r%d_%d", env.Seed, i), i, g.next)
 		}
 	}
